@@ -8,7 +8,7 @@ Open Scope N_scope.
 
 Lemma io_files_commit ps e ok e1 : io (ACommit ps) e = (ok, e1) -> dk_files (e_disk e1) = dk_files (e_disk e).
 Proof.
-  destruct (io_cases (ACommit ps) e eq_refl) as [(e' & E & D & _)|(e' & E & D & _)]; rewrite E; intros K; inversion K; subst; rewrite D; reflexivity.
+  destruct (io_cases3 (ACommit ps) e eq_refl) as [(e' & E & D & _)|[(e' & E & D & _)|(e' & E & _ & D & _)]]; rewrite E; intros K; inversion K; subst; rewrite D; reflexivity.
 Qed.
 
 Lemma mutate_gen_ok_facts defer w t e w' e' dl : mutate_gen defer w t e = (ROk, w', e', dl) ->
@@ -47,9 +47,8 @@ Qed.
 Lemma rotate_lock X c w e ec w' e' wc' ec' : R X e ec ->
   rotate c w e = (w', e') -> rotate c w ec = (wc', ec') ->
   (w' = wc' /\ R X e' ec') \/
-  (e_fault e' = None /\ st_rotate w <> None /\ st_closed w = false /\
-   ((w' = rot_none w /\ e_disk e' = e_disk e) \/
-    (w' = set_failed (rot_none w) /\ exists ps, post_commit X ec ec' (e_disk e') ps))).
+  (e_fault e' = None /\ st_rotate w <> None /\ st_closed w = false /\ w' = set_failed (rot_none w) /\
+   (e_disk e' = e_disk e \/ (exists ps, post_commit X ec ec' (e_disk e') ps) \/ st_failed wc' = true)).
 Proof.
   intros HR. unfold rotate. destruct (st_rotate w) as [istart|] eqn:Er; [|intros E1 E2; inversion E1; inversion E2; subst; left; auto].
   destruct (st_closed w) eqn:Ecl; [intros E1 E2; inversion E1; inversion E2; subst; left; auto|].
@@ -59,11 +58,16 @@ Proof.
     destruct (mutate w0 t (add_m e f)) as [[r1 w1] e1] eqn:Em; destruct (mutate w0 t (add_m ec f)) as [[rc1 wc1] ec1] eqn:Emc;
     pose proof (mutate_lock X w0 t (add_m e f) (add_m ec f) _ _ _ _ _ _ (R_add_m X e ec f f HR) Em Emc) as HL end.
   intros E1 E2; inversion E1; inversion E2; subst.
-  destruct HL as [(A & B & C & _)|(A & B & [(C1 & C2)|(C0 & C1 & C2 & C3 & _)])].
+  destruct HL as [(A & B & C & _)|(A & B & Ew & [C|[(C0 & C1 & C3 & _)|[(_ & C1 & _)|(_ & C)]]])].
   - left. split; [exact B|]. unfold dels_of in C. cbn [tx_delete] in C. destruct rc1; eapply Rd_nil; exact C.
-  - right. split; [exact A|]. split; [discriminate|]. split; [reflexivity|]. left. split; [unfold rot_none; rewrite Ecl; exact C1|exact C2].
-  - right. split; [exact A|]. split; [discriminate|]. split; [reflexivity|]. right. split; [unfold rot_none, set_failed; cbn; rewrite Ecl; exact C1|].
+  - right. split; [exact A|]. split; [discriminate|]. split; [reflexivity|].
+    split; [unfold rot_none, set_failed in *; cbn in *; rewrite Ecl; exact Ew|]. left. exact C.
+  - right. split; [exact A|]. split; [discriminate|]. split; [reflexivity|].
+    split; [unfold rot_none, set_failed in *; cbn in *; rewrite Ecl; exact Ew|]. right. left.
     eexists. eapply post_commit_shift; [apply aext_add_m|reflexivity|exact C3].
+  - cbn [tx_create] in C1. discriminate.
+  - right. split; [exact A|]. split; [discriminate|]. split; [reflexivity|].
+    split; [unfold rot_none, set_failed in *; cbn in *; rewrite Ecl; exact Ew|]. right. right. exact C.
 Qed.
 
 (* ------------------------------------------------------------------ *)
@@ -84,12 +88,17 @@ Lemma reset_first_lock X c w nbase e ec r w1 e1 dl rc wc1 ec1 dlc : R X e ec ->
    (rc = ROk -> forall ti, tail_info (st_segs w) = Some ti -> si_base ti <> nbase ->
     dl = [name_of ti] /\ exists si, st_tail w1 = Some (new_wseg si) /\ lookup (name_of si) (dk_files (e_disk e)) = None) /\
    (rc <> ROk -> st_failed wc1 = true \/ (w1 = w /\ e1 = e /\ ec1 = ec))) \/
-  (e_fault e1 = None /\ r = RErrIO /\ dl = [] /\
-   ((w1 = w /\ e_disk e1 = e_disk e) \/
-    (rc = ROk /\ w1 = set_failed w /\
+  (e_fault e1 = None /\ r = RErrIO /\ dl = [] /\ w1 = set_failed w /\
+   (e_disk e1 = e_disk e \/
+    (rc = ROk /\
      exists ps, post_commit X ec ec1 (e_disk e1) ps /\ dk_meta (e_disk ec1) = Some ps /\
                 NoDup (map fst (dk_files (e_disk ec1))) /\
-                (forall ti, tail_info (st_segs w) = Some ti -> si_base ti <> nbase -> dlc = [name_of ti])))).
+                (forall ti, tail_info (st_segs w) = Some ti -> si_base ti <> nbase -> dlc = [name_of ti]) /\
+                (forall ti, tail_info (st_segs w) = Some ti -> si_base ti <> nbase)) \/
+    (* the commit of the unchanged state was reported as failed and found applied *)
+    ((exists ti, tail_info (st_segs w) = Some ti /\ si_base ti = nbase) /\
+     e_disk e1 = apply_act (e_disk e) (ACommit (persistent w))) \/
+    (rc <> ROk /\ st_failed wc1 = true))).
 Proof.
   intros HR. unfold reset_first. destruct (0 <? _).
   { intros E1 E2; inversion E1; inversion E2; subst. left.
@@ -99,43 +108,54 @@ Proof.
      (rc = ROk ->
       (st_tail w1 = tx_tail t /\ tx_create t = None \/ exists si, st_tail w1 = Some (new_wseg si) /\ lookup (name_of si) (dk_files (e_disk e)) = None) /\
       dl = tx_delete t) /\ (rc <> ROk -> st_failed wc1 = true)) \/
-    (e_fault e1 = None /\ r = RErrIO /\ dl = [] /\
-     ((w1 = w /\ e_disk e1 = e_disk e) \/
-      (rc = ROk /\ w1 = set_failed w /\
+    (e_fault e1 = None /\ r = RErrIO /\ dl = [] /\ w1 = set_failed w /\
+     (e_disk e1 = e_disk e \/
+      (rc = ROk /\ tx_create t <> None /\
        exists ps, post_commit X ec ec1 (e_disk e1) ps /\ dk_meta (e_disk ec1) = Some ps /\
-                  NoDup (map fst (dk_files (e_disk ec1))) /\ dlc = tx_delete t)))).
-  { intros t E1 E2. destruct (mutate_gen_lock X true w t e ec _ _ _ _ _ _ _ _ HR E1 E2) as [(A & B & C & D & F)|(A & B & C & [D|(D0 & D1 & D2 & D3 & D5 & _ & D7)])].
+                  NoDup (map fst (dk_files (e_disk ec1))) /\ dlc = tx_delete t) \/
+      (tx_create t = None /\ e_disk e1 = apply_act (e_disk e) (ACommit (tx_ps t))) \/
+      (rc <> ROk /\ st_failed wc1 = true)))).
+  { intros t E1 E2. destruct (mutate_gen_lock X true w t e ec _ _ _ _ _ _ _ _ HR E1 E2) as [(A & B & C & D & F)|(A & B & C & Ew & [D|[(D0 & D1 & D3 & D5 & _ & D7)|[(D0 & D1 & D2 & _)|D]]])].
     - left. split; [exact A|]. split; [exact B|]. split; [exact C|].
       split; [apply (Rd_nil X ec); unfold dels_of in D; destruct rc; exact D|]. split; [|exact F]. intros Hr. subst rc r.
       destruct (mutate_gen_ok_facts _ _ _ _ _ _ _ E1) as (F1 & F2 & F3 & _). split; [|exact F3].
       destruct (tx_create t) as [si|]; [right; exists si; split; [exact F1|apply F2; reflexivity]|left; auto].
-    - right. auto.
-    - right. split; [exact A|]. split; [exact B|]. split; [exact C|]. right. split; [exact D0|]. split; [exact D1|].
+    - right. auto 10.
+    - right. split; [exact A|]. split; [exact B|]. split; [exact C|]. split; [exact Ew|]. right. left. split; [exact D0|]. split; [exact D1|].
       eexists. split; [exact D3|]. split; [exact D5|]. split; [exact D7|]. subst rc.
-      destruct (mutate_gen_ok_facts _ _ _ _ _ _ _ E2) as (_ & _ & F3 & _). exact F3. }
+      destruct (mutate_gen_ok_facts _ _ _ _ _ _ _ E2) as (_ & _ & F3 & _). exact F3.
+    - right. split; [exact A|]. split; [exact B|]. split; [exact C|]. split; [exact Ew|]. right. right. left. auto.
+    - right. split; [exact A|]. split; [exact B|]. split; [exact C|]. split; [exact Ew|]. right. right. right. exact D. }
   destruct (tail_info _) as [t|] eqn:Eti.
   - destruct (si_base t =? nbase) eqn:Eb.
-    + intros E1 E2. destruct (Gen _ E1 E2) as [(A & B & C & D & E & F)|(A & B & C & [D|(D0 & D1 & ps & D2 & D4 & D6 & D5)])].
+    + intros E1 E2. destruct (Gen _ E1 E2) as [(A & B & C & D & E & F)|(A & B & C & Ew & [D|[(_ & D1 & _)|[(_ & D1)|D]]])].
       * left. split; [exact A|]. split; [exact B|]. split; [exact C|]. split; [exact D|]. split; [|intros K; left; apply F; exact K].
         intros Hr ti K Hne. injection K as <-. lia.
-      * right. auto.
-      * right. split; [exact A|]. split; [exact B|]. split; [exact C|]. right. split; [exact D0|]. split; [exact D1|].
-        exists ps. split; [exact D2|]. split; [exact D4|]. split; [exact D6|]. intros ti K Hne. injection K as <-. lia.
+      * right. auto 10.
+      * cbn [tx_create] in D1. congruence.
+      * right. split; [exact A|]. split; [exact B|]. split; [exact C|]. split; [exact Ew|]. right. right. left.
+        split; [exists t; split; [reflexivity|lia]|exact D1].
+      * right. split; [exact A|]. split; [exact B|]. split; [exact C|]. split; [exact Ew|]. right. right. right. exact D.
     + destruct (create_next _ _ _ _) as [[nid segs2] si].
-      intros E1 E2. destruct (Gen _ E1 E2) as [(A & B & C & D & E & F)|(A & B & C & [D|(D0 & D1 & ps & D2 & D4 & D6 & D5)])].
+      intros E1 E2. destruct (Gen _ E1 E2) as [(A & B & C & D & E & F)|(A & B & C & Ew & [D|[(D0 & _ & ps & D2 & D4 & D6 & D5)|[(D1 & _)|D]]])].
       * left. split; [exact A|]. split; [exact B|]. split; [exact C|]. split; [exact D|]. split; [|intros K; left; apply F; exact K].
         intros Hr ti K Hne. injection K as <-.
         destruct (E Hr) as ([(_ & E1')|E1'] & E2'); cbn in *; [discriminate|]. split; [exact E2'|exact E1'].
-      * right. auto.
-      * right. split; [exact A|]. split; [exact B|]. split; [exact C|]. right. split; [exact D0|]. split; [exact D1|].
-        exists ps. split; [exact D2|]. split; [exact D4|]. split; [exact D6|]. intros ti K Hne. injection K as <-. exact D5.
+      * right. auto 10.
+      * right. split; [exact A|]. split; [exact B|]. split; [exact C|]. split; [exact Ew|]. right. left. split; [exact D0|].
+        exists ps. split; [exact D2|]. split; [exact D4|]. split; [exact D6|].
+        split; [intros ti K Hne; injection K as <-; exact D5|]. intros ti K. injection K as <-. lia.
+      * cbn [tx_create] in D1. discriminate.
+      * right. split; [exact A|]. split; [exact B|]. split; [exact C|]. split; [exact Ew|]. right. right. right. exact D.
   - destruct (create_next _ _ _ _) as [[nid segs2] si].
-    intros E1 E2. destruct (Gen _ E1 E2) as [(A & B & C & D & E & F)|(A & B & C & [D|(D0 & D1 & ps & D2 & D4 & D6 & D5)])].
+    intros E1 E2. destruct (Gen _ E1 E2) as [(A & B & C & D & E & F)|(A & B & C & Ew & [D|[(D0 & _ & ps & D2 & D4 & D6 & D5)|[(D1 & _)|D]]])].
     + left. split; [exact A|]. split; [exact B|]. split; [exact C|]. split; [exact D|]. split; [|intros K; left; apply F; exact K].
       intros Hr ti K; discriminate.
-    + right. auto.
-    + right. split; [exact A|]. split; [exact B|]. split; [exact C|]. right. split; [exact D0|]. split; [exact D1|].
-      exists ps. split; [exact D2|]. split; [exact D4|]. split; [exact D6|]. intros ti K; discriminate.
+    + right. auto 10.
+    + right. split; [exact A|]. split; [exact B|]. split; [exact C|]. split; [exact Ew|]. right. left. split; [exact D0|].
+      exists ps. split; [exact D2|]. split; [exact D4|]. split; [exact D6|]. split; intros ti K; discriminate.
+    + cbn [tx_create] in D1. discriminate.
+    + right. split; [exact A|]. split; [exact B|]. split; [exact C|]. split; [exact Ew|]. right. right. right. exact D.
 Qed.
 
 (* ------------------------------------------------------------------ *)
@@ -235,8 +255,13 @@ Qed.
 
 (* what the real run of a failed StoreLogs leaves behind *)
 Definition store_failed (X : list fname) (c : cfg) (w : wal) (ls : list log) (e ec : env)
-  (w' : wal) (e' : env) (rc : result) (ec' : env) : Prop :=
+  (w' : wal) (e' : env) (rc : result) (wc' : wal) (ec' : env) : Prop :=
   (w' = w /\ e_disk e' = e_disk e) \/
+  (* the commit of the reset failed: nothing on the disk changed (but for the commit of
+     the unchanged state that was reported as failed and found applied) *)
+  (w' = set_failed w /\
+   (e_disk e' = e_disk e \/ e_disk e' = apply_act (e_disk e) (ACommit (persistent w)))) \/
+  st_failed wc' = true \/
   (w' = set_failed w /\
    exists ps ti, post_commit X ec ec' (e_disk e') ps /\ dk_meta (e_disk ec') = Some ps /\
                  tail_info (st_segs w) = Some ti /\ lookup (name_of ti) (dk_files (e_disk ec')) = None) \/
@@ -268,7 +293,7 @@ Lemma store_logs_lock X c w ls e ec r w' e' rc wc' ec' : R X e ec ->
    ((w' = w /\ e' = e /\ ec' = ec) \/ st_failed wc' = true \/
     (exists tw, st_tail w = Some tw /\ rc = ROk /\ R (rem (ws_name tw) X) e' ec') \/
     (exists ti, tail_info (st_segs w) = Some ti /\ Rd X [name_of ti] ec e' ec'))) \/
-  (e_fault e' = None /\ r = RErrIO /\ store_failed X c w ls e ec w' e' rc ec').
+  (e_fault e' = None /\ r = RErrIO /\ store_failed X c w ls e ec w' e' rc wc' ec').
 Proof.
   intros HR Hg Hex. rewrite !store_logs_unfold.
   assert (Hsame : forall r0, (r0, w, e) = (r, w', e') -> (r0, w, ec) = (rc, wc', ec') ->
@@ -276,7 +301,7 @@ Proof.
      ((w' = w /\ e' = e /\ ec' = ec) \/ st_failed wc' = true \/
       (exists tw, st_tail w = Some tw /\ rc = ROk /\ R (rem (ws_name tw) X) e' ec') \/
       (exists ti, tail_info (st_segs w) = Some ti /\ Rd X [name_of ti] ec e' ec'))) \/
-    (e_fault e' = None /\ r = RErrIO /\ store_failed X c w ls e ec w' e' rc ec')).
+    (e_fault e' = None /\ r = RErrIO /\ store_failed X c w ls e ec w' e' rc wc' ec')).
   { intros r0 E1 E2; inversion E1; inversion E2; subst. left. auto 10. }
   destruct (st_closed w) eqn:Ecl; [apply Hsame|].
   destruct ls as [|l0 ls']; [apply Hsame|].
@@ -293,13 +318,13 @@ Proof.
         + exfalso. unfold store_go in E2. rewrite Et in E2. destruct (check_logs _ ls) as [[] ?]; inversion E2.
       - right. split; [exact E|]. split; [exact C|]. destruct F as [F|(F1 & F2)].
         + left. auto.
-        + right. right. left. split; [exact D|]. split; [exact A|]. split; [exact B|]. exists tw. auto. }
+        + right. right. right. right. left. split; [exact D|]. split; [exact A|]. split; [exact B|]. exists tw. auto. }
   destruct (reset_first c w (l_index l0) e) as [[[r1 w1] e1] dels] eqn:Er.
   destruct (reset_first c w (l_index l0) ec) as [[[rc1 wc1] ec1] delsc] eqn:Erc.
   assert (Hbase : si_base ti <> l_index l0) by lia.
   pose proof (sh_reset_first _ _ _ _ _ _ _ _ (proj2 HR) Erc) as Hsh1.
   destruct (reset_first_lock X c w (l_index l0) e ec _ _ _ _ _ _ _ _ HR Er Erc)
-    as [(-> & -> & -> & B & C & C')|(A & -> & -> & [(-> & C)|(-> & -> & ps & C1 & C3 & C5 & C4)])].
+    as [(-> & -> & -> & B & C & C')|(A & -> & -> & -> & [C|[(-> & ps & C1 & C3 & C5 & C4 & _)|[((t0 & Kt & Kb) & _)|(Kr & Kf)]]])].
   - destruct rc1; try (intros E1 E2; inversion E1; inversion E2; subst; left; split; [reflexivity|]; split; [reflexivity|];
                        destruct C' as [X0|(X0 & Y & Z)]; [discriminate|right; left; exact X0|left; auto]).
     destruct (C eq_refl ti Eti Hbase) as (-> & si & Ctail & Hl).
@@ -315,7 +340,7 @@ Proof.
     + remember (delete_files [name_of ti] e2) as e3 eqn:He3. remember (delete_files [name_of ti] ec2) as ec3 eqn:Hec3.
       intros E1 E2; injection E1 as <- <- <-; injection E2 as <- <- <-. subst e3 ec3. right.
       destruct (delete_files_real [name_of ti] e2) as (D3 & _ & D4).
-      split; [rewrite D3; exact G3|]. split; [reflexivity|]. right. right. right.
+      split; [rewrite D3; exact G3|]. split; [reflexivity|]. right. right. right. right. right.
       pose proof (proj1 (sh_delete_files [name_of ti] ec2 (proj2 Hsh2))) as D2'.
       destruct G4 as [G4|(G4 & G5)].
       * exists l0, ls', wc1, ec1, tw, (e_disk ec1), ti.
@@ -339,8 +364,8 @@ Proof.
         rewrite D4. destruct (del_fails e2).
         -- right. exact G4'.
         -- left. unfold del_disk. cbn [fold_left]. apply drel_delete_stale. exact G4'.
-  - intros E1 _. inversion E1; subst. right. split; [exact A|]. split; [reflexivity|]. left. auto.
-  - intros E1 E2. inversion E1; subst. right. split; [exact A|]. split; [reflexivity|]. right. left. split; [reflexivity|].
+  - intros E1 _. inversion E1; subst. right. split; [exact A|]. split; [reflexivity|]. right. left. auto.
+  - intros E1 E2. inversion E1; subst. right. split; [exact A|]. split; [reflexivity|]. right. right. right. left. split; [reflexivity|].
     exists ps, ti.
     destruct (store_go _ ls wc1 ec1) as [[rc2 wc2] ec2] eqn:Egc.
     pose proof (sh_store_go _ _ _ _ _ _ _ (proj2 Hsh1) Egc) as Hsh2.
@@ -354,6 +379,9 @@ Proof.
     split; [rewrite M1, K2; exact C3|]. split; [exact Eti|].
     rewrite del_disk_lookup by (rewrite K1; exact C5).
     replace (mem_name (name_of ti) [name_of ti]) with true; [reflexivity|]. symmetry. apply mem_name_spec. left. reflexivity.
+  - exfalso. rewrite Eti in Kt. inversion Kt; subst t0. contradiction.
+  - intros E1 E2. inversion E1; subst. right. split; [exact A|]. split; [reflexivity|]. right. right. left.
+    destruct rc1; [congruence|inversion E2; subst; exact Kf..].
 Qed.
 
 (* ------------------------------------------------------------------ *)
@@ -367,14 +395,33 @@ Proof.
     intros E. eapply shok_trans; [apply shok_add_m; exact Hf|]. eapply sh_mutate; [|exact E]. exact Hf.
 Qed.
 
-(* a failed state transaction: nothing published, or published on disk only
-   (then the tail of [w] is among the files the shadow run deleted) *)
-Definition txn_failed (X : list fname) (w0 w : wal) (e ec : env) (w' : wal) (e' : env) (ec' : env) : Prop :=
-  (w' = w0 /\ e_disk e' = e_disk e) \/
-  (w' = set_failed w0 /\
-   exists ps, post_commit X ec ec' (e_disk e') ps /\ dk_meta (e_disk ec') = Some ps /\
-              (forall ti, tail_info (st_segs w) = Some ti -> si_sealed ti = false ->
-                          lookup (name_of ti) (dk_files (e_disk ec')) = None)).
+Definition keeps_tail (w : wal) (n : fname) : Prop :=
+  forall sk r, st_segs w = sk ++ r -> r <> [] -> ~ In n (map name_of sk).
+
+(* what a successful DeleteRange did to the tail [ti] of [w]: it is still the tail, with
+   the same writer and (if its name is unique) the same file; or it was unlisted and is
+   among the names [ns] the call deleted or tried to delete *)
+Definition tail_fate (w : wal) (e : env) (wc' : wal) (e' : env) (ns : list fname) : Prop :=
+  forall ti, tail_info (st_segs w) = Some ti ->
+    (exists ti', tail_info (st_segs wc') = Some ti' /\ name_of ti' = name_of ti /\ st_tail wc' = st_tail w /\
+                 (keeps_tail w (name_of ti) -> lookup (name_of ti) (dk_files (e_disk e')) = lookup (name_of ti) (dk_files (e_disk e)))) \/
+    In (name_of ti) ns.
+
+(* a failed state transaction: the WAL refuses writes; on the disk nothing changed, or the
+   transaction is committed and the new tail file is missing (then the tail of [w] is among
+   the files the shadow run deleted), or the commit of a transaction that creates nothing was
+   reported as failed and found applied (the real run stopped before the trailing
+   deletions [ns]), or the shadow run failed as well *)
+Definition txn_failed (X : list fname) (w0 w : wal) (e ec : env) (w' : wal) (e' : env)
+  (rc : result) (wc' : wal) (ec' : env) : Prop :=
+  w' = set_failed w0 /\
+  (e_disk e' = e_disk e \/
+   (exists ps, post_commit X ec ec' (e_disk e') ps /\ dk_meta (e_disk ec') = Some ps /\
+               (forall ti, tail_info (st_segs w) = Some ti -> si_sealed ti = false ->
+                           lookup (name_of ti) (dk_files (e_disk ec')) = None)) \/
+   (exists ps ns, rc = ROk /\ e_disk e' = apply_act (e_disk e) (ACommit ps) /\ landed X ns ec e' ec' /\
+                  tail_fate w e wc' e' ns) \/
+   (rc <> ROk /\ st_failed wc' = true)).
 
 Lemma head_scan_spec nm tl : forall segs del ntr rest del' ntr' head,
   head_scan nm tl segs del ntr = (rest, del', ntr', head) ->
@@ -395,30 +442,49 @@ Lemma tail_info_app_ne a l : l <> [] -> tail_info (a ++ l) = tail_info l.
 Proof. intros H. induction a as [|x a IH]; [reflexivity|]. cbn [app]. rewrite tail_info_cons_ne; [exact IH|]. destruct a; cbn; [exact H|discriminate]. Qed.
 
 (* the common use of [mutate_lock] by the truncations *)
+Definition txn_failed0 (X : list fname) (w0 w : wal) (t : txn) (e ec : env) (w' : wal) (e' : env)
+  (rc : result) (wc' : wal) (ec' : env) : Prop :=
+  w' = set_failed w0 /\
+  (e_disk e' = e_disk e \/
+   (exists ps, post_commit X ec ec' (e_disk e') ps /\ dk_meta (e_disk ec') = Some ps /\
+               (forall ti, tail_info (st_segs w) = Some ti -> si_sealed ti = false ->
+                           lookup (name_of ti) (dk_files (e_disk ec')) = None)) \/
+   (rc = ROk /\ tx_create t = None /\ e_disk e' = apply_act (e_disk e) (ACommit (tx_ps t)) /\
+    landed X (tx_delete t) ec e' ec' /\ st_segs wc' = tx_segs t /\ st_tail wc' = tx_tail t) \/
+   (rc <> ROk /\ st_failed wc' = true)).
+
 Lemma mutate_lock' X w0 w t e1 ec1 r w' e' rc wc' ec' : R X e1 ec1 ->
   mutate w0 t e1 = (r, w', e') -> mutate w0 t ec1 = (rc, wc', ec') ->
   (forall ti, tail_info (st_segs w) = Some ti -> si_sealed ti = false -> tx_create t <> None -> In (name_of ti) (tx_delete t)) ->
   (r = rc /\ w' = wc' /\ Rd X (dels_of false rc t) ec1 e' ec' /\
    (rc = ROk -> st_segs wc' = tx_segs t /\ (tx_create t = None -> st_tail wc' = tx_tail t)) /\
    (rc <> ROk -> st_failed wc' = true)) \/
-  (e_fault e' = None /\ r = RErrIO /\ txn_failed X w0 w e1 ec1 w' e' ec').
+  (e_fault e' = None /\ r = RErrIO /\ txn_failed0 X w0 w t e1 ec1 w' e' rc wc' ec').
 Proof.
   intros HR1 E1 E2 Hin.
-  destruct (mutate_lock X w0 t _ _ _ _ _ _ _ _ HR1 E1 E2) as [(H1 & H2 & H3 & H5)|(A & B & [C|(C0 & C1 & C2 & C3 & C5 & C6 & _)])].
+  destruct (mutate_lock X w0 t _ _ _ _ _ _ _ _ HR1 E1 E2)
+    as [(H1 & H2 & H3 & H5)|(A & B & Ew & [C|[(C0 & C2 & C3 & C5 & C6 & _)|[(C0 & C1 & C2 & _ & _ & C5 & C6 & C7)|C]]])].
   - left. split; [exact H1|]. split; [exact H2|]. split; [exact H3|]. split; [|exact H5].
     intros Hr. subst rc. unfold mutate in E2. destruct (mutate_gen false w0 t _) as [[[r0 w1] e0] d0] eqn:Eg. inversion E2; subst.
     destruct (mutate_gen_ok_facts _ _ _ _ _ _ _ Eg) as (F1 & _ & _ & F4 & _). split; [exact F4|]. intros Hn. rewrite Hn in F1. exact F1.
-  - right. split; [exact A|]. split; [exact B|]. left. exact C.
-  - right. split; [exact A|]. split; [exact B|]. right. split; [exact C1|]. eexists. split; [exact C3|].
-    split; [exact C5|]. intros ti Hti Hs. apply C6. apply (Hin ti Hti Hs C2).
+  - right. split; [exact A|]. split; [exact B|]. split; [exact Ew|]. left. exact C.
+  - right. split; [exact A|]. split; [exact B|]. split; [exact Ew|]. right. left. eexists. split; [exact C3|].
+    split; [exact C5|]. intros ti Hti Hs. apply C6; [reflexivity|]. apply (Hin ti Hti Hs C2).
+  - right. split; [exact A|]. split; [exact B|]. split; [exact Ew|]. right. right. left. cbn [dels_of] in C5. auto 10.
+  - right. split; [exact A|]. split; [exact B|]. split; [exact Ew|]. right. right. right. exact C.
 Qed.
 
-Lemma txn_failed_shift X w0 w e ec e1 ec1 w' e' ec' :
+Lemma txn_failed_shift X w0 w e ec e1 ec1 w' e' rc wc' ec' :
   e_disk e1 = e_disk e -> aext ec ec1 -> e_disk ec1 = e_disk ec ->
-  txn_failed X w0 w e1 ec1 w' e' ec' -> txn_failed X w0 w e ec w' e' ec'.
+  txn_failed X w0 w e1 ec1 w' e' rc wc' ec' -> txn_failed X w0 w e ec w' e' rc wc' ec'.
 Proof.
-  intros He Ha Hec [(A & B)|(A & ps & B & C)]; [left; split; [exact A|congruence]|right].
-  split; [exact A|]. exists ps. split; [eapply post_commit_shift; eauto|exact C].
+  intros He Ha Hec (A & [B|[(ps & B & C)|[(ps & ns & B1 & B2 & B3 & B4)|B]]]); (split; [exact A|]).
+  - left. congruence.
+  - right. left. exists ps. split; [eapply post_commit_shift; eauto|exact C].
+  - right. right. left. exists ps, ns. split; [exact B1|]. split; [rewrite <- He; exact B2|].
+    split; [eapply landed_shift; eauto|]. intros ti Hti. destruct (B4 ti Hti) as [(ti' & K1 & K2 & K3 & K4)|K]; [left|right; exact K].
+    exists ti'. rewrite <- He. auto.
+  - right. right. right. exact B.
 Qed.
 
 Lemma mutate_ok_lookup w t e w' e' n : mutate w t e = (ROk, w', e') -> tx_create t = None ->
@@ -426,52 +492,53 @@ Lemma mutate_ok_lookup w t e w' e' n : mutate w t e = (ROk, w', e') -> tx_create
   lookup n (dk_files (e_disk e')) = lookup n (dk_files (e_disk e)).
 Proof.
   unfold mutate, mutate_gen. fold (tx_ps t). intros E Hn Hnot ND. rewrite Hn in E.
-  destruct (io_cases (ACommit (tx_ps t)) e eq_refl) as [(e1 & E1 & D & _)|(e1 & E1 & _)]; rewrite E1 in E; cbn [negb] in E; [|inversion E].
+  destruct (io_cases3 (ACommit (tx_ps t)) e eq_refl) as [(e1 & E1 & D & _)|[(e1 & E1 & _)|(e1 & E1 & _)]]; rewrite E1 in E; cbn [negb] in E; [|inversion E..].
   inversion E; subst. destruct (delete_files_real (tx_delete t) e1) as (_ & _ & K). rewrite K, D.
   destruct (del_fails e1); [reflexivity|]. rewrite del_disk_lookup by exact ND.
   replace (mem_name n (tx_delete t)) with false; [reflexivity|]. symmetry.
   destruct (mem_name n (tx_delete t)) eqn:Em; [|reflexivity]. apply mem_name_spec in Em. contradiction.
 Qed.
 
-Definition keeps_tail (w : wal) (n : fname) : Prop :=
-  forall sk r, st_segs w = sk ++ r -> r <> [] -> ~ In n (map name_of sk).
-
-(* what a successful DeleteRange did to the tail [ti] of [w]: it is still the tail, with
-   the same writer and (if its name is unique) the same file; or it was unlisted and is
-   among the names [ns] the call deleted or tried to delete *)
-Definition tail_fate (w : wal) (e : env) (wc' : wal) (e' : env) (ns : list fname) : Prop :=
-  forall ti, tail_info (st_segs w) = Some ti ->
-    (exists ti', tail_info (st_segs wc') = Some ti' /\ name_of ti' = name_of ti /\ st_tail wc' = st_tail w /\
-                 (keeps_tail w (name_of ti) -> lookup (name_of ti) (dk_files (e_disk e')) = lookup (name_of ti) (dk_files (e_disk e)))) \/
-    In (name_of ti) ns.
-
 Lemma truncate_head_lock X c w nm e ec r w' e' rc wc' ec' : R X e ec ->
   truncate_head c w nm e = (r, w', e') -> truncate_head c w nm ec = (rc, wc', ec') ->
   (r = rc /\ w' = wc' /\ (rc <> ROk -> st_failed wc' = true) /\
    exists ns, Rd X (match rc with ROk => ns | _ => [] end) ec e' ec' /\ (rc = ROk -> tail_fate w e wc' e' ns)) \/
-  (e_fault e' = None /\ r = RErrIO /\ txn_failed X w w e ec w' e' ec').
+  (e_fault e' = None /\ r = RErrIO /\ txn_failed X w w e ec w' e' rc wc' ec').
 Proof.
   intros HR. unfold truncate_head. destruct (head_scan _ _ _ _ _) as [[[rest del] ntr] head] eqn:Ehs.
   destruct (head_scan_spec _ _ _ _ _ _ _ _ _ Ehs) as (sk & Hsegs & Hdel & Hhead). cbn [app] in Hdel.
   destruct head as [h|].
   - destruct Hhead as (r0 & ->). intros E1 E2.
+    (* the tail of [w] stays the tail *)
+    assert (Hfate : forall h' ex, name_of h' = name_of h -> si_base h' = si_base h ->
+              st_segs wc' = seg_set h' (h :: r0) -> st_tail wc' = st_tail w ->
+              (forall ti, tail_info (st_segs w) = Some ti -> keeps_tail w (name_of ti) ->
+                          lookup (name_of ti) (dk_files (e_disk ex)) = lookup (name_of ti) (dk_files (e_disk e))) ->
+              tail_fate w e wc' ex del).
+    { intros h' ex Hn' Hb' E1' E2' Hkeep ti Hti. left. rewrite E1'. cbn [seg_set]. rewrite Hb', N.ltb_irrefl, N.eqb_refl.
+      pose proof (Hkeep ti Hti) as Hk.
+      rewrite Hsegs in Hti. rewrite tail_info_app_ne in Hti by discriminate.
+      destruct r0 as [|x r0].
+      - cbn in Hti. inversion Hti; subst ti. eexists. split; [reflexivity|]. split; [exact Hn'|]. split; [exact E2'|exact Hk].
+      - rewrite tail_info_cons_ne in Hti by discriminate. exists ti. rewrite tail_info_cons_ne by discriminate. auto. }
     match type of E1 with mutate _ ?t (add_m e ?f) = _ =>
       destruct (mutate_lock' X w w t _ _ _ _ _ _ _ _ (R_add_m X e ec f f HR) E1 E2) as [(A & B & C & E & F)|(A & B & C)] end.
     { intros ti _ _ K. exfalso. apply K. reflexivity. }
     + left. split; [exact A|]. split; [exact B|]. split; [exact F|]. exists del. cbn [tx_delete dels_of] in C.
-      split; [eapply Rd_shift; [apply aext_add_m|exact C]|]. intros Hr ti Hti. left.
+      split; [eapply Rd_shift; [apply aext_add_m|exact C]|]. intros Hr.
       destruct (E Hr) as (E1' & E2'). cbn [tx_segs tx_create tx_tail] in E1', E2'. specialize (E2' eq_refl).
-      rewrite E1'. cbn [seg_set si_base]. rewrite N.ltb_irrefl, N.eqb_refl.
-      rewrite Hsegs in Hti. rewrite tail_info_app_ne in Hti by discriminate.
-      assert (Hkeep : keeps_tail w (name_of ti) -> lookup (name_of ti) (dk_files (e_disk e')) = lookup (name_of ti) (dk_files (e_disk e))).
-      { intros Hk. subst rc r.
-        rewrite (mutate_ok_lookup _ _ _ _ _ (name_of ti) E1 eq_refl); [reflexivity| |apply (drel_NoDup _ _ _ (proj1 HR))].
-        cbn [tx_delete]. rewrite Hdel. apply (Hk sk (h :: r0) Hsegs ltac:(discriminate)). }
-      destruct r0 as [|x r0].
-      * cbn in Hti. inversion Hti; subst ti. eexists. split; [reflexivity|]. split; [reflexivity|]. split; [exact E2'|exact Hkeep].
-      * rewrite tail_info_cons_ne in Hti by discriminate. exists ti. rewrite tail_info_cons_ne by discriminate. auto.
+      eapply Hfate; [| |exact E1'|exact E2'|]; [reflexivity|reflexivity|].
+      intros ti Hti Hk. subst rc r.
+      rewrite (mutate_ok_lookup _ _ _ _ _ (name_of ti) E1 eq_refl); [reflexivity| |apply (drel_NoDup _ _ _ (proj1 HR))].
+      cbn [tx_delete]. rewrite Hdel. apply (Hk sk (h :: r0) Hsegs ltac:(discriminate)).
     + right. split; [exact A|]. split; [exact B|].
-      match type of C with txn_failed _ _ _ (add_m _ ?f) _ _ _ _ => apply (txn_failed_shift X w w e ec (add_m e f) (add_m ec f)); [reflexivity|apply aext_add_m|reflexivity|exact C] end.
+      match type of C with txn_failed0 _ _ _ _ (add_m _ ?f) _ _ _ _ _ _ =>
+        apply (txn_failed_shift X w w e ec (add_m e f) (add_m ec f)); [reflexivity|apply aext_add_m|reflexivity|] end.
+      destruct C as (C0 & [C|[C|[(C1 & _ & C3 & C4 & C5 & C6)|C]]]); (split; [exact C0|]); [left; exact C|right; left; exact C| |right; right; right; exact C].
+      right. right. left. eexists _, del. split; [exact C1|]. split; [exact C3|]. split; [exact C4|].
+      cbn [tx_segs tx_tail] in C5, C6.
+      eapply Hfate; [| |exact C5|exact C6|]; [reflexivity|reflexivity|].
+      intros ti _ _. rewrite C3. reflexivity.
   - subst rest. rewrite app_nil_r in Hsegs. subst sk.
     destruct (create_next _ _ _ _) as [[nid segs2] si].
     intros E1 E2.
@@ -482,7 +549,10 @@ Proof.
       split; [eapply Rd_shift; [apply aext_add_m|exact C]|]. intros Hr ti Hti. right.
       rewrite Hdel. apply in_map_iff. exists ti. split; [reflexivity|]. apply tail_info_In. exact Hti.
     + right. split; [exact A|]. split; [exact B|].
-      match type of C with txn_failed _ _ _ (add_m _ ?f) _ _ _ _ => apply (txn_failed_shift X w w e ec (add_m e f) (add_m ec f)); [reflexivity|apply aext_add_m|reflexivity|exact C] end.
+      match type of C with txn_failed0 _ _ _ _ (add_m _ ?f) _ _ _ _ _ _ =>
+        apply (txn_failed_shift X w w e ec (add_m e f) (add_m ec f)); [reflexivity|apply aext_add_m|reflexivity|] end.
+      destruct C as (C0 & [C|[C|[(_ & C2 & _)|C]]]); (split; [exact C0|]); [left; exact C|right; left; exact C| |right; right; right; exact C].
+      cbn [tx_create] in C2. discriminate.
 Qed.
 
 Definition set_tail (w : wal) (t : option wseg) : wal :=
@@ -526,8 +596,16 @@ Proof.
       eapply shok_trans; [exact H1|]. eapply shok_trans; [apply shok_add_m; apply H1|]. eapply sh_mutate; [|exact E]. apply H1.
 Qed.
 
-Definition tail_failed (X : list fname) (w : wal) (e ec : env) (w' : wal) (e' : env) (ec' : env) : Prop :=
-  txn_failed X w w e ec w' e' ec' \/
+Lemma txn_failed0_create X w0 w t e ec w' e' rc wc' ec' : tx_create t <> None ->
+  txn_failed0 X w0 w t e ec w' e' rc wc' ec' -> txn_failed X w0 w e ec w' e' rc wc' ec'.
+Proof.
+  intros Hc (C0 & [C|[C|[(_ & C2 & _)|C]]]); [| |contradiction|]; (split; [exact C0|]);
+    [left; exact C|right; left; exact C|right; right; right; exact C].
+Qed.
+
+Definition tail_failed (X : list fname) (w : wal) (e ec : env) (w' : wal) (e' : env)
+  (rc : result) (wc' : wal) (ec' : env) : Prop :=
+  txn_failed X w w e ec w' e' rc wc' ec' \/
   (exists tw, st_tail w = Some tw /\ ws_index_start tw = 0 /\ ws_n tw <> 0 /\ w' = w /\
      (e_disk e' = e_disk e \/
       (drel (rem (ws_name tw) X) (e_disk e') (apply_act (e_disk ec) (force_act tw)) /\
@@ -536,9 +614,10 @@ Definition tail_failed (X : list fname) (w : wal) (e ec : env) (w' : wal) (e' : 
      st_tail w = Some tw /\ seg_force_seal tw ec = (ROk, tw', ec1) /\ seg_force_seal tw e = (ROk, tw', e1) /\
      R X' e1 ec1 /\ (X' = X \/ (ws_index_start tw = 0 /\ X' = rem (ws_name tw) X)) /\
      (ws_index_start tw = 0 -> X' = rem (ws_name tw) X) /\ shok ec ec1 /\
-     ((w' = set_tail w (Some tw') /\ e_disk e' = e_disk e1 /\ pfx ec ec' (e_disk ec1)) \/
-      (w' = set_failed (set_tail w (Some tw')) /\
-       exists ps, post_commit X' ec1 ec' (e_disk e') ps /\ dk_meta (e_disk ec') = Some ps))).
+     w' = set_failed (set_tail w (Some tw')) /\
+     ((e_disk e' = e_disk e1 /\ pfx ec ec' (e_disk ec1)) \/
+      (exists ps, post_commit X' ec1 ec' (e_disk e') ps /\ dk_meta (e_disk ec') = Some ps) \/
+      (rc <> ROk /\ st_failed wc' = true))).
 
 Lemma truncate_tail_lock X c w nm e ec r w' e' rc wc' ec' : R X e ec ->
   (forall tw, st_tail w = Some tw -> In (ws_name tw) X -> wguard (e_disk e) (ws_name tw) (ws_off tw)) ->
@@ -548,7 +627,7 @@ Lemma truncate_tail_lock X c w nm e ec r w' e' rc wc' ec' : R X e ec ->
    (rc = ROk -> exists ns X', Rd X' ns ec e' ec' /\ incl X' X /\
       forall ti tw, tail_info (st_segs w) = Some ti -> si_sealed ti = false ->
          st_tail w = Some tw -> ws_name tw = name_of ti -> ws_index_start tw = 0 -> ~ In (name_of ti) X' \/ In (name_of ti) ns)) \/
-  (e_fault e' = None /\ r = RErrIO /\ tail_failed X w e ec w' e' ec').
+  (e_fault e' = None /\ r = RErrIO /\ tail_failed X w e ec w' e' rc wc' ec').
 Proof.
   intros HR Hg. unfold truncate_tail. destruct (tail_scan _ _ _ _ _) as [[rrest del] ntr] eqn:Ets.
   destruct (tail_scan_spec _ _ _ _ _ _ _ _ Ets) as (sk & Hrev & Hdel). cbn [app] in Hdel.
@@ -563,7 +642,7 @@ Proof.
     + left. split; [exact A|]. split; [exact B|]. split; [intros K; left; apply F; exact K|].
       intros Hr. rewrite Hr in C. exists del, X. cbn [dels_of tx_delete] in C. split; [exact C|]. split; [apply incl_refl|].
       intros ti tw Hti _ _ _ _. right. apply (Hall ti Hti).
-    + right. split; [exact A|]. split; [exact B|]. left. exact C.
+    + right. split; [exact A|]. split; [exact B|]. left. eapply txn_failed0_create; [|exact C]. discriminate.
   - destruct (si_sealed t) eqn:Eseal.
     + destruct (create_next _ _ _ _) as [[nid segs2] si].
       fold (set_tail w (st_tail w)). rewrite set_tail_id.
@@ -580,7 +659,9 @@ Proof.
         intros Hr. rewrite Hr in C. exists del, X. cbn [dels_of tx_delete] in C. split; [eapply Rd_shift; [apply aext_add_m|exact C]|]. split; [apply incl_refl|].
         intros ti tw Hti Hus _ _ _. right. apply (Hall ti Hti Hus).
       * right. split; [exact A|]. split; [exact B|]. left.
-        match type of C with txn_failed _ _ _ (add_m _ ?f) _ _ _ _ => apply (txn_failed_shift X w w e ec (add_m e f) (add_m ec f)); [reflexivity|apply aext_add_m|reflexivity|exact C] end.
+        match type of C with txn_failed0 _ _ _ _ (add_m _ ?f) _ _ _ _ _ _ =>
+          apply (txn_failed_shift X w w e ec (add_m e f) (add_m ec f)); [reflexivity|apply aext_add_m|reflexivity|] end.
+        eapply txn_failed0_create; [|exact C]. discriminate.
     + destruct (st_tail w) as [tw|] eqn:Etw.
       2:{ intros E1 E2; inversion E1; inversion E2; subst; left. split; [reflexivity|]. split; [reflexivity|].
           split; [intros _; right; auto|discriminate]. }
@@ -609,11 +690,13 @@ Proof.
         -- right. split; [exact A|]. split; [exact B|]. right. right.
            exists tw, twc1, e1, ec1, X'. split; [exact Etw|]. split; [exact Efsc|]. split; [exact Efs|]. split; [exact HR1|].
            split; [exact Ho'|]. split; [exact Ho''|]. split; [split; [exact A1|exact A2]|].
-           destruct C as [(C1 & C2)|(C0 & C1 & _ & C2 & C4 & _)].
-           ++ left. split; [exact C1|]. split; [exact C2|].
+           destruct C as (Ew & [C2|[(C0 & _ & C2 & C4 & _)|[(_ & C2 & _)|C2]]]); (split; [exact Ew|]).
+           ++ left. split; [exact C2|].
               match type of E2 with mutate ?w0 ?t ?e0 = _ => pose proof (sh_mutate w0 t e0 _ _ _ A2 E2) as Hsh end.
               eapply pfx_more; [apply pfx_end; exact A1|]. eapply aext_trans; [apply aext_add_m|apply Hsh].
-           ++ right. split; [exact C1|]. eexists. split; [eapply post_commit_shift; [apply aext_add_m|reflexivity|exact C2]|exact C4].
+           ++ right. left. eexists. split; [eapply post_commit_shift; [apply aext_add_m|reflexivity|exact C2]|exact C4].
+           ++ cbn [tx_create] in C2. discriminate.
+           ++ right. right. exact C2.
       * intros E1 E2; inversion E1; inversion E2; subst. right.
         split; [exact B3|]. split; [reflexivity|]. right. left. exists tw. split; [exact Etw|]. split; [exact B0|]. split; [exact Bn|].
         split; [fold (set_tail w (Some tw)); rewrite <- Etw; apply set_tail_id|].
@@ -650,12 +733,12 @@ Lemma delete_range_lock X c w mn mx e ec r w' e' rc wc' ec' : R X e ec ->
   (forall tw, st_tail w = Some tw -> In (ws_name tw) X -> wguard (e_disk e) (ws_name tw) (ws_off tw)) ->
   delete_range c w mn mx e = (r, w', e') -> delete_range c w mn mx ec = (rc, wc', ec') ->
   (r = rc /\ w' = wc' /\ delete_same X w e ec rc wc' e' ec') \/
-  (e_fault e' = None /\ r = RErrIO /\ tail_failed X w e ec w' e' ec').
+  (e_fault e' = None /\ r = RErrIO /\ tail_failed X w e ec w' e' rc wc' ec').
 Proof.
   intros HR Hg. unfold delete_range.
   assert (Hsame : forall r0, (r0, w, e) = (r, w', e') -> (r0, w, ec) = (rc, wc', ec') ->
     (r = rc /\ w' = wc' /\ delete_same X w e ec rc wc' e' ec') \/
-    (e_fault e' = None /\ r = RErrIO /\ tail_failed X w e ec w' e' ec')).
+    (e_fault e' = None /\ r = RErrIO /\ tail_failed X w e ec w' e' rc wc' ec')).
   { intros r0 E1 E2. inversion E1; inversion E2; subst. left. split; [reflexivity|]. split; [reflexivity|].
     split; [intros _; right; auto|intros _; left; auto]. }
   destruct (st_closed w); [apply Hsame|]. destruct (mx <? mn); [apply Hsame|]. destruct (st_failed w); [apply Hsame|]. cbv zeta.
@@ -684,13 +767,14 @@ Qed.
 
 Lemma set_stable_lock X w k v nl e ec r e' rc ec' : R X e ec ->
   set_stable w k v nl e = (r, e') -> set_stable w k v nl ec = (rc, ec') ->
-  (r = rc /\ R X e' ec') \/ (e_fault e' = None /\ r = RErrIO /\ rc = ROk /\ e_disk e' = e_disk e).
+  (r = rc /\ R X e' ec') \/
+  (e_fault e' = None /\ r = RErrIO /\ rc = ROk /\ (e_disk e' = e_disk e \/ R X e' ec')).
 Proof.
   intros HR. unfold set_stable. destruct (st_closed w); [intros E1 E2; inversion E1; inversion E2; subst; left; auto|].
   destruct (negb (key_ok k)); [intros E1 E2; inversion E1; inversion E2; subst; left; split; [reflexivity|exact HR]|].
   assert (HR0 : R X (inc_stable e true) (inc_stable ec true)) by exact HR.
-  destruct (io_lock X (ASetStable k v) _ _ HR0 (conj I eq_refl)) as (Ec & [(e1 & Er & HR1 & _)|(e1 & Er & D & F & _)]); rewrite Ec, Er;
-    intros E1 E2; inversion E1; inversion E2; subst; [left; auto|right; auto].
+  destruct (io_lock X (ASetStable k v) _ _ HR0 (conj I eq_refl)) as (Ec & [(e1 & Er & HR1 & _)|[(e1 & Er & D & F & _)|(e1 & Er & _ & HR1 & _ & F & _)]]); rewrite Ec, Er;
+    intros E1 E2; inversion E1; inversion E2; subst; [left; auto|right; auto|right; auto].
 Qed.
 
 (* ------------------------------------------------------------------ *)
@@ -779,7 +863,7 @@ Lemma open_newtail_lock c nid segs garbage e1 ec1 res e' resc ec' : R [] e1 ec1 
 Proof.
   intros HR. unfold open_newtail.
   match goal with |- context [io (ACommit ?ps) e1] =>
-    destruct (io_lock [] (ACommit ps) e1 ec1 HR (conj I eq_refl)) as (Ec & [(e2 & Er & HR2 & _)|(e2 & Er & D & F & _)]); rewrite Ec, Er; cbn [negb];
+    destruct (io_lock [] (ACommit ps) e1 ec1 HR (conj I eq_refl)) as (Ec & [(e2 & Er & HR2 & _)|[(e2 & Er & D & F & _)|(e2 & Er & _ & HR2 & D & F & _)]]); rewrite Ec, Er; cbn [negb];
     set (ec2 := io_env (ACommit ps) ec1) in * end.
   - destruct (seg_create _ e2) as [sw e3] eqn:Es. destruct (seg_create _ ec2) as [swc ec3] eqn:Esc.
     destruct (seg_create_lock [] _ e2 ec2 _ _ _ _ HR2 Es Esc) as (A1 & A2 & [(-> & HR3)|(-> & -> & F & Dc & Hreal)]).
@@ -800,6 +884,14 @@ Proof.
     destruct swc; inversion E2; subst.
     + eapply aext_trans; [apply aext_io|]. eapply aext_trans; [apply H3|]. apply sh_delete_files. apply H3.
     + eapply aext_trans; [apply aext_io|apply H3].
+  - (* the commit is reported as failed and found applied *)
+    intros E1 E2. inversion E1; subst. right. split; [eexists; reflexivity|].
+    exists (e_disk ec2). split; [apply HR2|].
+    eapply pfx_more; [apply (pfx_end ec1 ec2); apply aext_io|].
+    destruct (seg_create _ ec2) as [swc ec3] eqn:Esc. pose proof (sh_seg_create _ _ _ _ (io_env_fault _ _) Esc) as H3.
+    destruct swc; inversion E2; subst.
+    + eapply aext_trans; [apply H3|]. apply sh_delete_files. apply H3.
+    + apply H3.
 Qed.
 
 Lemma sh_open_rest c ec res ec' : e_fault ec = None -> open_rest c ec = (res, ec') -> shok ec ec'.
@@ -881,7 +973,7 @@ Proof.
       + right. eapply open_failed_shift; eauto. }
   destruct (dk_inited (e_disk ec)).
   - cbn [negb]. unfold armed at 2. rewrite Hf. cbn [andb]. apply (Hlist e ec HR (aext_refl ec)).
-  - destruct (io_lock [] AInitMeta e ec HR (conj I eq_refl)) as (Ec & [(e1 & Er & HR1 & _)|(e1 & Er & D & F & _)]); rewrite Ec, Er; cbn [negb].
+  - destruct (io_lock [] AInitMeta e ec HR (conj I eq_refl)) as (Ec & [(e1 & Er & HR1 & _)|[(e1 & Er & D & F & _)|(e1 & _ & K & _)]]); [| |discriminate K]; rewrite Ec, Er; cbn [negb].
     + change (armed (io_env AInitMeta ec) && fx_list (e_fx (io_env AInitMeta ec))) with false. cbv iota.
       apply (Hlist e1 _ HR1 (aext_io _ _)).
     + change (armed (io_env AInitMeta ec) && fx_list (e_fx (io_env AInitMeta ec))) with false. cbv iota.
